@@ -9,13 +9,13 @@
 
   * `addNeg/addPos/addFin`, `add_eq`;  `subNeg/subPos/subFin`, `sub_eq`
   * `addNeg_triple`, `addPos_triple`, `addFin_triple`
-  * `d192_add_triple` : `⦃True⦄ add d o t ⦃r => (d.sig ≠ 0 → o.sig ≠ 0 → r.1.sig ≠ 0) ∧
+  * `d192_add_strong_triple` : `⦃True⦄ add d o t ⦃r => (d.sig + o.sig ≠ 0 → r.1.sig ≠ 0) ∧
                                               (r.1.sig ≠ 0 ∨ r.2 = t ∨ r.2 = 1)⦄`
-      (a sticky flag `-1` is only ever produced together with a non-zero significand)
+      (a sticky flag `-1` is only ever produced together with a non-zero significand; the sum is non-zero
+      as soon as one operand is: a zero operand is rescaled freely, nothing is shifted out)
+  * `d192_add_triple` (`@[spec]`): the same with `d.sig ≠ 0 → o.sig ≠ 0 → r.1.sig ≠ 0`
   * `d192_sub_triple` : `⦃True⦄ sub d o t ⦃r => True⦄`
   * `d192_add_total`, `d192_sub_total`
-  Note: with only ONE operand non-zero the sum can be zero (the non-zero operand is shifted out
-  when the zero operand has the larger exponent), so the first conjunct needs both.
 -/
 import D128.Proofs.TotalBase
 set_option autoImplicit false
@@ -172,28 +172,36 @@ theorem add_eq (d o : decomposed192) (trunc : Int8) :
 end
 
 def AlignN (d o : Gen.decomposed192) (t : Int8) (d' o' : Gen.decomposed192) (t' : Int8) : Prop :=
-  (o.sig.toNat ≠ 0 → o'.sig.toNat ≠ 0) ∧ (t' = t ∨ t' = 1)
+  (o.sig.toNat ≠ 0 → o'.sig.toNat ≠ 0) ∧ (t' = t ∨ t' = 1) ∧
+  (o.sig.toNat = 0 → d'.sig.toNat = d.sig.toNat)
 
+set_option maxHeartbeats 1000000 in
 theorem addNeg_triple {α : Type} (d o : Gen.decomposed192) (trunc : Int8) (exp : Int16)
     (k : Gen.decomposed192 → Gen.decomposed192 → Int8 → Go.GoM α) (Q : α → Prop)
     (hk : ∀ d' o' t', ⦃⌜AlignN d o trunc d' o' t'⌝⦄ k d' o' t' ⦃⇓ r => ⌜Q r⌝⦄) :
     ⦃⌜True⌝⦄ addNeg d o trunc exp k ⦃⇓ r => ⌜Q r⌝⦄ := by
   mvcgen [addNeg, hk]
   case inv1 | inv3 | inv5 => exact fun st => ⟨dn16 st.2⟩
-  case inv2 | inv4 | inv6 => exact ⇓ x => match x with
-    | .inl st => ⌜o.sig.toNat ≠ 0 → st.1.sig.toNat ≠ 0⌝
-    | .inr st => ⌜o.sig.toNat ≠ 0 → st.1.sig.toNat ≠ 0⌝
+  case inv2 | inv4 => exact ⇓ x => match x with
+    | .inl st => ⌜(o.sig.toNat ≠ 0 → st.1.sig.toNat ≠ 0) ∧ (o.sig.toNat = 0 → st.1.sig.toNat = 0)⌝
+    | .inr st => ⌜(o.sig.toNat ≠ 0 → st.1.sig.toNat ≠ 0) ∧ (o.sig.toNat = 0 → st.1.sig.toNat = 0)⌝
+  case inv6 => exact ⇓ x => match x with
+    | .inl st => ⌜(o.sig.toNat ≠ 0 → st.1.sig.toNat ≠ 0) ∧ (o.sig.toNat = 0 → st.1.sig.toNat = 0)⌝
+    | .inr st => ⌜(o.sig.toNat ≠ 0 → st.1.sig.toNat ≠ 0) ∧ (o.sig.toNat = 0 → 0 ≤ st.2)⌝
   case inv7 | inv9 | inv11 | inv13 | inv15 | inv17 => exact fun st => ⟨dn16 st.2.2⟩
   case inv8 | inv10 | inv12 | inv14 | inv16 | inv18 => exact ⇓ x => match x with
-    | .inl st => ⌜st.2.1 = trunc ∨ st.2.1 = 1⌝
-    | .inr st => ⌜st.2.1 = trunc ∨ st.2.1 = 1⌝
+    | .inl st => ⌜(st.2.1 = trunc ∨ st.2.1 = 1) ∧
+        (o.sig.toNat = 0 → 0 ≤ st.2.2 ∧ st.1.sig.toNat = d.sig.toNat)⌝
+    | .inr st => ⌜(st.2.1 = trunc ∨ st.2.1 = 1) ∧
+        (o.sig.toNat = 0 → 0 ≤ st.2.2 ∧ st.1.sig.toNat = d.sig.toNat)⌝
   all_goals (simp +zetaDelta [AlignN] at *)
   all_goals d192_prep
   all_goals d192_fin
-
 def AlignP (d o : Gen.decomposed192) (t : Int8) (d' o' : Gen.decomposed192) (t' : Int8) : Prop :=
-  (d.sig.toNat ≠ 0 → d'.sig.toNat ≠ 0) ∧ (t' = t ∨ t' = 1 ∨ d'.sig.toNat ≠ 0)
+  (d.sig.toNat ≠ 0 → d'.sig.toNat ≠ 0) ∧ (t' = t ∨ t' = 1 ∨ d'.sig.toNat ≠ 0) ∧
+  (d.sig.toNat = 0 → o'.sig.toNat = o.sig.toNat)
 
+set_option maxHeartbeats 1000000 in
 theorem addPos_triple {α : Type} (d o : Gen.decomposed192) (trunc : Int8) (exp : Int16)
     (k : Gen.decomposed192 → Gen.decomposed192 → Int8 → Go.GoM α) (Q : α → Prop)
     (hk : ∀ d' o' t', ⦃⌜AlignP d o trunc d' o' t'⌝⦄ k d' o' t' ⦃⇓ r => ⌜Q r⌝⦄) :
@@ -201,17 +209,20 @@ theorem addPos_triple {α : Type} (d o : Gen.decomposed192) (trunc : Int8) (exp 
   mvcgen [addPos, hk]
   case inv1 | inv3 | inv5 => exact fun st => ⟨up16 st.2⟩
   case inv2 | inv4 => exact ⇓ x => match x with
-    | .inl st => ⌜d.sig.toNat ≠ 0 → st.1.sig.toNat ≠ 0⌝
-    | .inr st => ⌜d.sig.toNat ≠ 0 → st.1.sig.toNat ≠ 0⌝
+    | .inl st => ⌜(d.sig.toNat ≠ 0 → st.1.sig.toNat ≠ 0) ∧ (d.sig.toNat = 0 → st.1.sig.toNat = 0)⌝
+    | .inr st => ⌜(d.sig.toNat ≠ 0 → st.1.sig.toNat ≠ 0) ∧ (d.sig.toNat = 0 → st.1.sig.toNat = 0)⌝
   case inv6 => exact ⇓ x => match x with
-    | .inl st => ⌜d.sig.toNat ≠ 0 → st.1.sig.toNat ≠ 0⌝
-    | .inr st => ⌜(d.sig.toNat ≠ 0 → st.1.sig.toNat ≠ 0) ∧ (st.2 ≤ 0 ∨ st.1.sig.toNat ≠ 0)⌝
+    | .inl st => ⌜(d.sig.toNat ≠ 0 → st.1.sig.toNat ≠ 0) ∧ (d.sig.toNat = 0 → st.1.sig.toNat = 0)⌝
+    | .inr st => ⌜(d.sig.toNat ≠ 0 → st.1.sig.toNat ≠ 0) ∧ (st.2 ≤ 0 ∨ st.1.sig.toNat ≠ 0) ∧
+        (d.sig.toNat = 0 → st.1.sig.toNat = 0)⌝
   case inv7 | inv9 | inv11 | inv13 | inv15 | inv17 => exact fun st => ⟨up16 st.2.2⟩
   case inv8 | inv10 | inv12 | inv14 | inv16 | inv18 => exact ⇓ x => match x with
     | .inl st => ⌜(st.2.1 = trunc ∨ st.2.1 = 1 ∨ (‹Gen.decomposed192 × Int16›).1.sig.toNat ≠ 0) ∧
-        (0 < st.2.2 → (‹Gen.decomposed192 × Int16›).1.sig.toNat ≠ 0)⌝
+        (0 < st.2.2 → (‹Gen.decomposed192 × Int16›).1.sig.toNat ≠ 0) ∧
+        (d.sig.toNat = 0 → st.1.sig.toNat = o.sig.toNat)⌝
     | .inr st => ⌜(st.2.1 = trunc ∨ st.2.1 = 1 ∨ (‹Gen.decomposed192 × Int16›).1.sig.toNat ≠ 0) ∧
-        (0 < st.2.2 → (‹Gen.decomposed192 × Int16›).1.sig.toNat ≠ 0)⌝
+        (0 < st.2.2 → (‹Gen.decomposed192 × Int16›).1.sig.toNat ≠ 0) ∧
+        (d.sig.toNat = 0 → st.1.sig.toNat = o.sig.toNat)⌝
   all_goals (simp +zetaDelta [AlignP] at *)
   all_goals d192_prep
   all_goals d192_fin
@@ -232,9 +243,11 @@ theorem addFin_triple (d o : Gen.decomposed192) (trunc : Int8) :
   all_goals d192_prep
   all_goals d192_fin
 
-@[spec] theorem d192_add_triple (d o : Gen.decomposed192) (trunc : Int8) :
+/-- strong form: the sum is non-zero as soon as ONE operand is (a zero operand is always rescaled to the
+exponent of the other one, so nothing is shifted out) -/
+theorem d192_add_strong_triple (d o : Gen.decomposed192) (trunc : Int8) :
     ⦃⌜True⌝⦄ Gen.decomposed192.add d o trunc
-    ⦃⇓ r => ⌜(d.sig.toNat ≠ 0 → o.sig.toNat ≠ 0 → r.1.sig.toNat ≠ 0) ∧
+    ⦃⇓ r => ⌜(d.sig.toNat + o.sig.toNat ≠ 0 → r.1.sig.toNat ≠ 0) ∧
       (r.1.sig.toNat ≠ 0 ∨ r.2 = trunc ∨ r.2 = 1)⌝⦄ := by
   rw [add_eq]
   split
@@ -243,34 +256,42 @@ theorem addFin_triple (d o : Gen.decomposed192) (trunc : Int8) :
     refine triple_conseq (addFin_triple d' o' t') ?_
     simp only [AlignN]
     intro h r hr
-    refine ⟨fun _ h2 => hr.1 (by have := h.1 h2; omega), ?_⟩
-    rcases hr.2 with e | e <;> rcases h.2 with e' | e' <;> simp [e, e']
+    refine ⟨fun h2 => hr.1 (by have := h.1; have := h.2.2; omega), ?_⟩
+    rcases hr.2 with e | e <;> rcases h.2.1 with e' | e' <;> simp [e, e']
   split
   · apply addPos_triple
     intro d' o' t'
     refine triple_conseq (addFin_triple d' o' t') ?_
     simp only [AlignP]
     intro h r hr
-    refine ⟨fun h1 _ => hr.1 (by have := h.1 h1; omega), ?_⟩
+    refine ⟨fun h1 => hr.1 (by have := h.1; have := h.2.2; omega), ?_⟩
     rcases hr.2 with e | e
-    · rcases h.2 with e' | e' | e'
+    · rcases h.2.1 with e' | e' | e'
       · right; left; rw [e, e']
       · right; right; rw [e, e']
       · left; exact hr.1 (by omega)
     · right; right; exact e
   · refine triple_conseq (P := True) (addFin_triple d o trunc) ?_
     intro _ r hr
-    exact ⟨fun h1 _ => hr.1 (by omega), Or.inr hr.2⟩
+    exact ⟨fun h1 => hr.1 h1, Or.inr hr.2⟩
+
+@[spec] theorem d192_add_triple (d o : Gen.decomposed192) (trunc : Int8) :
+    ⦃⌜True⌝⦄ Gen.decomposed192.add d o trunc
+    ⦃⇓ r => ⌜(d.sig.toNat ≠ 0 → o.sig.toNat ≠ 0 → r.1.sig.toNat ≠ 0) ∧
+      (r.1.sig.toNat ≠ 0 ∨ r.2 = trunc ∨ r.2 = 1)⌝⦄ := by
+  refine triple_conseq (P := True) (d192_add_strong_triple d o trunc) ?_
+  intro _ r hr
+  exact ⟨fun h1 _ => hr.1 (by omega), hr.2⟩
 
 theorem d192_add_total (d o : Gen.decomposed192) (trunc : Int8) :
     ∃ r, Gen.decomposed192.add d o trunc = .ok r ∧
-      (d.sig.toNat ≠ 0 → o.sig.toNat ≠ 0 → r.1.sig.toNat ≠ 0) ∧
+      (d.sig.toNat + o.sig.toNat ≠ 0 → r.1.sig.toNat ≠ 0) ∧
       (r.1.sig.toNat ≠ 0 ∨ r.2 = trunc ∨ r.2 = 1) :=
-  ok_of_triple (d192_add_triple d o trunc)
+  ok_of_triple (d192_add_strong_triple d o trunc)
 
 example : ∃ r, Gen.decomposed192.add Gen.ln10 Gen.ln2 0 = .ok r ∧ r.1.sig.toNat ≠ 0 := by
   obtain ⟨r, h, h1, _⟩ := d192_add_total Gen.ln10 Gen.ln2 0
-  exact ⟨r, h, h1 (by decide) (by decide)⟩
+  exact ⟨r, h, h1 (by decide)⟩
 
 /-! ## sub -/
 
